@@ -213,6 +213,9 @@ func scenBudget(rng *rand.Rand, tr *sim.Trace, seg int, events int) {
 	}
 	o := opts{burst: []int{0, 1, 2, 5}[rng.Intn(4)], ratePerSec: 0, peerstore: rng.Intn(2) == 0,
 		resend: func() time.Duration { return 3 * time.Millisecond }}
+	// waiting for budget that can never come (burst 0) fails at once; with burst > 0 and a negligible rate a
+	// waiting reply would block for good, so wait-to-reply is only combined with burst 0 here
+	o.wait = o.burst == 0 && rng.Intn(2) == 0
 	h := newH(rng, tr, seg, o)
 	defer h.close()
 	for i := 0; i < events; i++ {
@@ -229,9 +232,16 @@ func scenBudget(rng *rand.Rand, tr *sim.Trace, seg int, events int) {
 			n := 1 + rng.Intn(3)
 			for j := 0; j < n; j++ {
 				rl := dht.QueryRateLimiting{NotFirst: rng.Intn(3) == 0, NotAny: rng.Intn(4) == 0, WaitOnRetries: false, NoWaitFirst: true}
+				if rng.Intn(3) == 0 {
+					// wait for budget, but not longer than the caller's deadline: with the bucket empty the limiter
+					// refuses at once and the query must fail without sending
+					rl.NoWaitFirst, rl.WaitOnRetries = false, rng.Intn(2) == 0
+					cs = append(cs, h.callT(h.randSrc(), "ping", dht.QueryInput{RateLimiting: rl, NumTries: 1 + rng.Intn(3)}, 40*time.Millisecond))
+					continue
+				}
 				cs = append(cs, h.call(h.randSrc(), "ping", dht.QueryInput{RateLimiting: rl, NumTries: 1 + rng.Intn(3)}))
 			}
-			time.Sleep(15 * time.Millisecond)
+			time.Sleep(60 * time.Millisecond)
 			for _, c := range cs {
 				if !h.ret(c, 0) {
 					h.cancelCall(c)
@@ -435,6 +445,12 @@ func scenHostile(rng *rand.Rand, tr *sim.Trace, seg int, events int) {
 	classes := 0
 	sent := 0
 	id := randID(rng)
+	switch rng.Intn(8) {
+	case 0:
+		id = h.own // the node's own ID as the sender's (learnt from any reply)
+	case 1:
+		id = krpc.ID{}
+	}
 	baseQ := func() *sim.Dict {
 		q := &query{method: methods[rng.Intn(6)], t: h.nextT(), hasA: true, id: id, ih: &id, target: &id, port: 6881, hasTok: true, tok: []byte("t"),
 			extra: map[string]sim.Value{"v": []byte("val"), "seq": int64(1)}}
